@@ -179,8 +179,8 @@ class BaseKey(t.Generic[NativePrivateKey, NativePublicKey], metaclass=ABCMeta):
             data.update(params)
             return data
 
-        # clear private fields
-        for k in self.dict_value:
+        # clear private fields (iterate over the copy: the shared dict may gain a "kid" concurrently)
+        for k in list(data):
             if k in self.value_registry and self.value_registry[k].private:
                 del data[k]
 
